@@ -11,3 +11,25 @@ package stats
 //@ func (s *StatsCtx) initWeb()
 //@   property C11
 //@   modifies *
+
+// ---- C05: lock discipline (ghost lock state; every access to a guarded field in the package is an obligation) ----
+//@ guarded StatsCtx.curr by currMu
+//@ guarded StatsCtx.ignored by confMu
+//@ guarded StatsCtx.limit by confMu
+//@ guarded StatsCtx.enabled by confMu
+
+//@ func (s *StatsCtx) isIgnored(host string) (r0 bool)
+//@   requires held(s.confMu) || rheld(s.confMu)
+//@   modifies *
+//@ func (s *StatsCtx) setLimit(limit time.Duration)
+//@   requires held(s.confMu)
+//@   modifies *
+//@ func (s *StatsCtx) flushDB(id uint32, limit uint32, ptr *unit) (cont bool, sleepFor time.Duration)
+//@   requires held(s.currMu) && (held(s.confMu) || rheld(s.confMu))
+//@   modifies *
+//@ func (s *StatsCtx) dataFromUnits(units []*unitDB, curID uint32) (resp *StatsResp)
+//@   requires held(s.confMu) || rheld(s.confMu)
+//@   modifies *
+//@ func (s *StatsCtx) getData(limit uint32) (resp *StatsResp, ok bool)
+//@   requires held(s.confMu) || rheld(s.confMu)
+//@   modifies *
